@@ -112,10 +112,14 @@ def claims(tier):
         cl.append(Claim("formula[%s]" % sh, c06_formula, params={"sh": sh, "K": K}, pre=[lambda root: spelled(root, P["K"])], timeout=400 if q else 2400, bounds="root = letter + {#,b}^<=%d (symbolic); shorthand %r" % (K, sh)))
     cl.append(Claim("tables", c06_tables, pre=[lambda i: 0 <= i < 80], timeout=600, bounds="every key of the builder table, the meaning table and the reference table"))
     n = len(ALIAS_CASES)
-    step = 12
+    step = 6
     for lo in range(0, n, step):
+        if q and (lo // step) % 2 == 1:
+            continue  # quick tier: every other block of alias cases
         cl.append(Claim("alias[%d-%d]" % (lo, min(lo + step, n) - 1), c06_alias, params={"lo": lo, "hi": min(lo + step, n), "K": 0 if q else 1}, pre=[lambda i, root: P["lo"] <= i < P["hi"] and spelled(root, P["K"])], timeout=600 if q else 2400, bounds="alias cases %d..%d of (shorthand containing m/M) x (min, mi, -, maj, ma); root = letter + {#,b}^<=%d" % (lo, min(lo + step, n) - 1, 0 if q else 1)))
     for si in range(len(SLASH_POOL)):
+        if q and si % 2 == 1:
+            continue
         cl.append(Claim("slash[%s]" % SLASH_POOL[si], c06_slash, params={"K": 0 if q else 1, "si": si}, group="c06_slash", pre=[lambda root, bass, i: i == P["si"] and spelled(root, P["K"]) and spelled(bass, 1)], timeout=900 if q else 3000, bounds="root = letter%s; bass = letter + {#,b}^<=1 (both symbolic); chord type %r" % ("" if q else " + {#,b}^<=1", SLASH_POOL[si])))
     cl.append(Claim("polychord", c06_poly, pre=[lambda i, j: 0 <= i < len(POLY_POOL) and 0 <= j < len(POLY_POOL)], timeout=600, bounds="X|Y for X, Y in a pool of %d chords (realised)" % len(POLY_POOL)))
     cl.append(Claim("nc_and_lists", c06_nc_and_lists, pre=[lambda i, j: 0 <= i < 3 and 0 <= j < len(POLY_POOL)], timeout=300, bounds="NC, N.C., list input"))
